@@ -42,6 +42,10 @@ def units(tier, seed, only=None):
                         no_dfcc=True, nondet_static=True, defines=['REGALLOC_SRC="%s"' % GEN], unwind=130, timeout=900, object_bits=10,
                         checks=[], cbmc_flags=['--no-standard-checks'],
                         contract_text='result == spec_const_reg(compiler state) with every static variable nondeterministic (arbitrary history): first valid register at or above the temporaries that no live variable and no pooled constant occupies; assume/assert form'))
+    for u in us:
+        u.optional = True            # the register-allocation units: attempts (DESIGN.md 7.5)
+        u.timeout = 900
+        u.backends = ['minisat']
     # rule lookup is a pure function of (registries, target, opcode, flags): no hidden state that earlier compiles could leave
     from . import c20
     for u in c20.units(tier, seed):
